@@ -38,7 +38,7 @@ for _side in ("Stats1.", "Stats2."):
                "AllowedErrorsAreFloorOfLTimesRate"):
         CLAUSES["C20"][_side + _c] = _c + ("(R2)" if _side == "Stats2." else "")
 for _c in ("InputCount", "Conservation", "WrittenCount", "WrittenMatchesFiles", "WrittenBasePairs", "InputBasePairs",
-           "WithAdapters", "QualityTrimmed", "PolyATrimmed", "ReverseComplemented", "TextFateEqualsJson", "MinimalEqualsJson"):
+           "WithAdapters", "QualityTrimmed", "PolyATrimmed", "TextFateEqualsJson", "MinimalEqualsJson"):      # (the reverse-complemented count is C16's)
     CLAUSES["C04"]["Report." + _c] = "Report" + _c
 
 
